@@ -26,11 +26,12 @@ import (
 
 // c13RefPath verifies a fixed-tree proof path strictly, written from the format (shares no code with util/fixedtree):
 // nodes = [children of the key node (2)] [key node + its pair node] [parent + pair] ... [root]. The key node must be
-// hashed with its own key over the pair beneath it, every level above must contain a node hashed over the pair beneath,
-// and the last node is the root. Returns the root hash the path leads to.
+// hashed with its own key over the pair beneath it (over nothing when the list shows no pair beneath it, i.e. the key node
+// sits in the first pair), every level above must contain a node hashed over the pair beneath, and the last node is the
+// root. Returns the root hash the path leads to.
 func c13RefPath(nodes []fixedtree.Node, key string) (root []byte, ok bool) {
 	n := len(nodes)
-	if n < 3 || n%2 != 1 {
+	if n < 1 || n%2 != 1 {
 		return nil, false
 	}
 
@@ -59,12 +60,19 @@ func c13RefPath(nodes []fixedtree.Node, key string) (root []byte, ok bool) {
 		}
 	}
 
-	if k < 2 {
+	if k < 0 {
 		return nil, false
 	}
 
 	p := k - k%2 // start of the pair the key node is in
-	if !bytes.Equal(hb(nodes[k]), h(nodes[k], nodes[p-2], nodes[p-1])) {
+
+	// a key node in the first pair of the list shows no children level: it then has to be hashed as a node without children
+	var kl, kr fixedtree.Node
+	if p >= 2 {
+		kl, kr = nodes[p-2], nodes[p-1]
+	}
+
+	if !bytes.Equal(hb(nodes[k]), h(nodes[k], kl, kr)) {
 		return nil, false
 	}
 
@@ -487,6 +495,20 @@ var c13Kinds = []string{
 	"valid", "fake-state-own-tree", "real-state-own-tree", "fake-state-real-path", "foreign-block-proof", "rekey-node", "rekey-node",
 	"grafted-root", "appended-root", "wrong-previous", "forged-block-height-gap", "forged-block-previous-hash", "forged-block-previous-not-older",
 	"forged-block-consistent", "genesis-with-previous", "map-without-states-tree", "map-without-states-tree",
+	"noncanonical-own-path", "noncanonical-own-path", "noncanonical-own-path", "noncanonical-mutated-list", "noncanonical-mutated-list",
+}
+
+// c13Node: a tree node hashed the way the format says (key, then the hashes of the two nodes beneath; nothing for an absent/empty one).
+func c13Node(key string, l, r fixedtree.Node) fixedtree.Node {
+	b := []byte(key)
+
+	for _, c := range []fixedtree.Node{l, r} {
+		if c != nil && !c.IsEmpty() && c.Hash() != nil {
+			b = append(b, c.Hash().Bytes()...)
+		}
+	}
+
+	return fixedtree.NewBaseNode(key).SetHash(valuehash.NewSHA256(b))
 }
 
 func c13Forge(rt *rapid.T, c *c13Chain, idx int) (f c13Forgery) {
@@ -495,7 +517,8 @@ func c13Forge(rt *rapid.T, c *c13Chain, idx int) (f c13Forgery) {
 
 	if f.Kind == "genesis-with-previous" {
 		f.Target = 0
-	} else if f.Kind != "valid" && f.Kind != "fake-state-own-tree" && f.Kind != "real-state-own-tree" && f.Kind != "rekey-node" && f.Target == 0 {
+	} else if f.Kind != "valid" && f.Kind != "fake-state-own-tree" && f.Kind != "real-state-own-tree" && f.Kind != "rekey-node" &&
+		!strings.HasPrefix(f.Kind, "noncanonical-") && f.Target == 0 {
 		f.Target = rapid.IntRange(1, len(c.Sufs)-1).Draw(rt, "target1")
 	}
 
@@ -718,6 +741,210 @@ func c13Forge(rt *rapid.T, c *c13Chain, idx int) (f c13Forgery) {
 	case "genesis-with-previous":
 		f.Proof = real.Proof
 		f.Prev = c.Sufs[rapid.IntRange(0, len(c.Sufs)-1).Draw(rt, "gprev")].State
+	case "noncanonical-own-path":
+		// A node list no honest extractor makes: the attacker's state (correctly linked to the real previous state) in a self-made,
+		// self-consistent path of 0..3 further levels, the key node in the FIRST pair of the list (no children level shown) or
+		// with a children pair beneath it, hung under the top 0..all real pairs of the block's real proof (the self-made top node
+		// takes one slot of the lowest kept real pair, the other slot keeps its real node) and the real root node (or, for
+		// contrast, a self-made root hashed over the last pair). Nothing of it is hashed into the real root.
+		st := c13FakeState(h, base.Height(f.Target), prevHash, label, nFake)
+		key := st.Hash().String()
+		rn := real.Proof.Proof().Nodes()
+		m := (len(rn) - 1) / 2
+
+		junk := func(what string, lv int) string { return gen.H(fmt.Sprintf("c13-nc-%s-%s-%d", label, what, lv)).String() }
+		filler := func(what string, lv int) fixedtree.Node {
+			if rapid.Bool().Draw(rt, "fillerEmpty") {
+				return fixedtree.EmptyBaseNode()
+			}
+
+			return c13Node(junk(what, lv), nil, nil)
+		}
+
+		kept := rapid.IntRange(0, m).Draw(rt, "keptRealPairs")
+		if rapid.Bool().Draw(rt, "keptFew") {
+			kept = rapid.IntRange(0, 1).Draw(rt, "keptRealPairs01")
+		}
+
+		levels := rapid.IntRange(0, 3).Draw(rt, "ownLevels")
+		children := rapid.SampledFrom([]string{"none", "none", "empty", "junk"}).Draw(rt, "children")
+		rootMode := rapid.SampledFrom([]string{"real", "real", "real", "own"}).Draw(rt, "rootMode")
+
+		var list []fixedtree.Node
+
+		var cl, cr fixedtree.Node
+
+		switch children {
+		case "empty":
+			cl, cr = fixedtree.EmptyBaseNode(), fixedtree.EmptyBaseNode()
+			list = append(list, cl, cr)
+		case "junk":
+			cl, cr = c13Node(junk("child", 0), nil, nil), filler("child", 1)
+			list = append(list, cl, cr)
+		}
+
+		cur := c13Node(key, cl, cr)
+		slots := ""
+
+		var pair [2]fixedtree.Node
+
+		for lv := 0; lv <= levels; lv++ {
+			slot := rapid.IntRange(0, 1).Draw(rt, "slot")
+			slots += fmt.Sprintf("%d", slot)
+
+			pair[slot] = cur
+
+			switch {
+			case lv == levels && kept > 0:
+				pair[1-slot] = rn[2*(m-kept)+1-slot]
+			default:
+				pair[1-slot] = filler("pair", lv)
+			}
+
+			list = append(list, pair[0], pair[1])
+			cur = c13Node(junk("parent", lv), pair[0], pair[1])
+		}
+
+		for j := m - kept + 1; j < m; j++ {
+			list = append(list, rn[2*j], rn[2*j+1])
+			pair = [2]fixedtree.Node{rn[2*j], rn[2*j+1]}
+		}
+
+		switch rootMode {
+		case "own":
+			list = append(list, c13Node(junk("root", 0), pair[0], pair[1]))
+		default:
+			list = append(list, rn[2*m])
+		}
+
+		f.Proof = isaacblock.NewSuffrageProof(real.Map, st, fixedtree.NewProof(list))
+		f.Detail += fmt.Sprintf(" children=%s levels=%d slots=%s kept=%d/%d root=%s n=%d", children, levels, slots, kept, m, rootMode, len(list))
+		f.Sub = "noncanonical:key-in-first-pair"
+
+		if children != "none" {
+			f.Sub = "noncanonical:key-above-children"
+		}
+	case "noncanonical-mutated-list":
+		// The real node list of the block's proof, restructured: pairs dropped / inserted / swapped / flipped / duplicated, slots
+		// emptied, the key's pair moved to the front; proved for the real state, or for the attacker's state whose key node is
+		// written into a drawn slot (as a node without children, hashed over the pair beneath the slot, or with the slot's hash).
+		nodes := append([]fixedtree.Node(nil), real.Proof.Proof().Nodes()...)
+		st := real.State
+		who := "real"
+
+		junk := func(what string, i int) fixedtree.Node {
+			return c13Node(gen.H(fmt.Sprintf("c13-ml-%s-%s-%d", label, what, i)).String(), nil, nil)
+		}
+
+		if rapid.IntRange(0, 2).Draw(rt, "attackerState") > 0 {
+			st = c13FakeState(h, base.Height(f.Target), prevHash, label, nFake)
+			key := st.Hash().String()
+			at := rapid.IntRange(0, len(nodes)-2).Draw(rt, "keyAt")
+			form := rapid.SampledFrom([]string{"leaf", "leaf", "over-beneath", "slot-hash"}).Draw(rt, "keyForm")
+
+			if form == "slot-hash" && nodes[at].IsEmpty() {
+				form = "leaf"
+			}
+
+			switch form {
+			case "leaf":
+				nodes[at] = c13Node(key, nil, nil)
+			case "over-beneath":
+				var l, rr fixedtree.Node
+				if p := at - at%2; p >= 2 {
+					l, rr = nodes[p-2], nodes[p-1]
+				}
+
+				nodes[at] = c13Node(key, l, rr)
+			default:
+				nodes[at] = fixedtree.NewBaseNode(key).SetHash(nodes[at].Hash())
+			}
+
+			who = fmt.Sprintf("attacker:%s@%d", form, at)
+		}
+
+		key := st.Hash().String()
+		nops := rapid.IntRange(1, 3).Draw(rt, "listOps")
+		ops := ""
+
+		for i := 0; i < nops; i++ {
+			np := (len(nodes) - 1) / 2 // pairs below the last node
+
+			op := rapid.SampledFrom([]string{"drop-first-pair", "drop-first-pair", "key-pair-first", "key-pair-first", "drop-pair", "prepend-pair", "insert-pair",
+				"swap-pairs", "flip-pair", "empty-slot", "dup-pair"}).Draw(rt, "listOp")
+
+			if np < 1 && op != "prepend-pair" {
+				op = "prepend-pair"
+			}
+
+			newPair := func() []fixedtree.Node {
+				if rapid.Bool().Draw(rt, "newPairEmpty") {
+					return []fixedtree.Node{fixedtree.EmptyBaseNode(), fixedtree.EmptyBaseNode()}
+				}
+
+				return []fixedtree.Node{junk("a", i), junk("b", i)}
+			}
+
+			insertAt := func(a int, pr []fixedtree.Node) {
+				out := append([]fixedtree.Node(nil), nodes[:2*a]...)
+				out = append(out, pr...)
+				nodes = append(out, nodes[2*a:]...)
+			}
+
+			switch op {
+			case "drop-first-pair":
+				nodes = append([]fixedtree.Node(nil), nodes[2:]...)
+			case "key-pair-first":
+				// everything below the key's pair goes away
+				k := -1
+
+				for j := range nodes {
+					if !nodes[j].IsEmpty() && nodes[j].Key() == key {
+						k = j
+
+						break
+					}
+				}
+
+				if k >= 0 && k < len(nodes)-1 {
+					nodes = append([]fixedtree.Node(nil), nodes[k-k%2:]...)
+				}
+			case "drop-pair":
+				a := rapid.IntRange(0, np-1).Draw(rt, "pairA")
+				out := append([]fixedtree.Node(nil), nodes[:2*a]...)
+				nodes = append(out, nodes[2*a+2:]...)
+				op += fmt.Sprintf("%d", a)
+			case "prepend-pair":
+				insertAt(0, newPair())
+			case "insert-pair":
+				a := rapid.IntRange(0, np).Draw(rt, "pairA")
+				insertAt(a, newPair())
+				op += fmt.Sprintf("%d", a)
+			case "swap-pairs":
+				a := rapid.IntRange(0, np-1).Draw(rt, "pairA")
+				b := rapid.IntRange(0, np-1).Draw(rt, "pairB")
+				nodes[2*a], nodes[2*a+1], nodes[2*b], nodes[2*b+1] = nodes[2*b], nodes[2*b+1], nodes[2*a], nodes[2*a+1]
+				op += fmt.Sprintf("%d-%d", a, b)
+			case "flip-pair":
+				a := rapid.IntRange(0, np-1).Draw(rt, "pairA")
+				nodes[2*a], nodes[2*a+1] = nodes[2*a+1], nodes[2*a]
+				op += fmt.Sprintf("%d", a)
+			case "empty-slot":
+				a := rapid.IntRange(0, len(nodes)-2).Draw(rt, "slotA")
+				nodes[a] = fixedtree.EmptyBaseNode()
+				op += fmt.Sprintf("%d", a)
+			case "dup-pair":
+				a := rapid.IntRange(0, np-1).Draw(rt, "pairA")
+				insertAt(a, []fixedtree.Node{nodes[2*a], nodes[2*a+1]})
+				op += fmt.Sprintf("%d", a)
+			}
+
+			ops += "+" + op
+		}
+
+		f.Proof = isaacblock.NewSuffrageProof(real.Map, st, fixedtree.NewProof(nodes))
+		f.Detail += fmt.Sprintf(" state=%s ops=%s n=%d", who, ops, len(nodes))
+		f.Sub = "noncanonical:mutated-" + strings.SplitN(who, ":", 2)[0]
 	default:
 		rt.Fatalf("unknown kind %s", f.Kind)
 	}
@@ -752,10 +979,12 @@ func TestC13(t *testing.T) {
 	r := ev.Start(t, "C13")
 	defer r.Finish()
 	r.Rule("chains from the production path: 1..3 genesis nodes, 1..3 suffrage events (candidate+join / disjoin) with optional gap blocks (filler or empty: no operation, no states tree) and 0..11 filler states per block, " +
-		"so suffrage states sit in trees of 1..14 states; 20 proofs per chain: the real proofs from the database and forgeries {attacker state in an own self-consistent tree under the real signed map, " +
+		"so suffrage states sit in trees of 1..14 states; 24 proofs per chain: the real proofs from the database and forgeries {attacker state in an own self-consistent tree under the real signed map, " +
 		"real state with a foreign path, attacker state on the real path, proof of another block, one proof node renamed to the attacker's state hash, own tree with the real root hash grafted on or appended as an extra node, " +
 		"wrong/fabricated previous state, fully attacker-made blocks (own manifest+tree+signature) whose state skips a suffrage height / names another previous / has a previous that is not older / is consistent, genesis with a previous, " +
-		"a signed map WITHOUT a states tree (the genuine map of an empty block of the chain above the previous suffrage block, or the real manifest re-signed with the states tree / both trees taken out) carrying an attacker state in an own tree that correctly follows the real previous state, or the real state with its real / a foreign path}; " +
+		"a signed map WITHOUT a states tree (the genuine map of an empty block of the chain above the previous suffrage block, or the real manifest re-signed with the states tree / both trees taken out) carrying an attacker state in an own tree that correctly follows the real previous state, or the real state with its real / a foreign path, " +
+		"NON-CANONICAL node lists: the attacker's state in a self-made self-consistent path of 1..4 levels with the key node in the FIRST pair of the list (no children level) or above a children pair, hung under the top 0..all real pairs of the real proof and the real root node (or an own root), " +
+		"and the real node list restructured (pairs dropped / inserted / swapped / flipped / duplicated, slots emptied, the key's pair moved to the front; shorter and longer lists) for the real state or with the attacker's key written into a drawn slot}; " +
 		"every proof also goes through the JSON encoder. accepted := IsValid(networkID)==nil && Prove(previous)==nil. " +
 		"non-trivial: a forged proof that passes IsValid (so only Prove decides); distinct by (chain, kind, target, parameters)")
 	r.Floor(int64(r.N(150, 1500)))
@@ -771,7 +1000,7 @@ func TestC13(t *testing.T) {
 		c := c13Build(rt)
 		defer c.W.Close()
 
-		for i := 0; i < 20; i++ {
+		for i := 0; i < 24; i++ {
 			f := c13Forge(rt, c, i)
 			c13Judge(rt, r, c, f)
 		}
